@@ -121,17 +121,17 @@ Proof.
   set (Y := vs_toks vs ++ bases_toks ws ++ ktok LBRACE :: X) in *.
   assert (Hy : exists s r, Y = s :: r /\ (is T_DBL_COLON s || is T_LIT_60 s) = false /\ is_name_start s = false /\
                            is_ptr_ref_paren s = false /\ set_mod (kty s) mods0 = None /\ is SEMI s = false /\
-                           memN (kty s) class_enum_stage2 = true).
+                           memN (kty s) class_enum_stage2 = true /\ memN (kty s) attribute_start_tokens = false).
   { unfold Y. destruct vs as [|f q].
     - destruct ws as [|w q]; cbn [vs_toks map app bases_toks]; eexists; eexists; (split; [reflexivity|]); repeat split; reflexivity.
     - subst f. cbn [vs_toks map app]. eexists; eexists; (split; [reflexivity|]); repeat split; reflexivity. }
-  destruct Hy as (s & r & EY & H1 & H2 & H3 & H4 & H5 & H6).
+  destruct Hy as (s & r & EY & H1 & H2 & H3 & H4 & H5 & H6 & HAT).
   unfold class_stmt_head.
   assert (Hck : ckey_loop mods0 (ktok key :: mkTk T_NAME name :: Y) = Some (DOk (mods0, [key], Some name, Y))).
   { rewrite EY. destruct Hk as [E|[E|E]]; rewrite E; cbn [ckey_loop]; unfold key_name, name_part; cbv beta; change (memN (kty (mkTk T_NAME name)) attribute_start_tokens) with false; cbv iota; change (is T_DBL_COLON (mkTk T_NAME name)) with false; change (is T_NAME (mkTk T_NAME name)) with true; cbv iota; rewrite H1; reflexivity. }
   rewrite Hck.
   assert (Hsl : spec_loop mods0 (Some 0) Y = DOk (mods0, 0, Y)).
-  { rewrite EY. cbn [spec_loop]. rewrite H2, H3, H4. reflexivity. }
+  { rewrite EY. cbn [spec_loop]. rewrite H2, H3, H4, HAT. reflexivity. }
   rewrite Hsl.
   assert (Hce : class_enum [key] mods0 false false false Y = DOk (CEClass s, r)).
   { rewrite EY. unfold class_enum. rewrite H5, H6. destruct Hk as [E|[E|E]]; rewrite E; reflexivity. }
